@@ -200,7 +200,14 @@ def run_pair(ctx, rng, with_close):
     info = {"discards": 0, "steps": 0}
 
     def step(op):
-        pair.do(op)
+        try:
+            pair.do(op)
+        except lib_chan.RigDeadlock as e:
+            pp = pair.A.protocol_problem() or pair.B.protocol_problem()
+            fails.append(pp or ("deadlock:real-code-blocked-under-the-schedule", "%s at %r" % (e, op)))
+            reqs.append(op)
+            impl.append("*")
+            raise
         reqs.append(op)
         impl.append(pair.view())
         info["steps"] += 1
@@ -222,35 +229,46 @@ def run_pair(ctx, rng, with_close):
                               "credits of the %s direction %d, advertised window %d after %r"
                               % ("b→a" if rev else "a→b", pair.credits(rev), win, op)))
 
+    dead = False
     try:
-        nops = rng.randrange(10, 60)
-        gens = {"L": c19.gen_schedule(rng, pair.A, nthr, nops, winA, maxB, allow_close=with_close,
-                                      local_only=True, reserve_last=True),
-                "R": c19.gen_schedule(rng, pair.B, nthr, nops, winB, maxA, allow_close=with_close,
-                                      local_only=True, reserve_last=True)}
-        tp = nthr - 1
-        for _ in range(nops):
-            r = rng.random()
-            if r < 0.3 and pair.ab:
-                if pair.B.threads[tp].state == "hold":
-                    step("R emit %d" % tp)
-                else:
-                    step("dab %d %d" % (tp, rng.choice([0, 1, 1, 1, 2, 3, 4, 5])))
-            elif r < 0.5 and pair.ba:
-                if pair.A.threads[tp].state == "hold":
-                    step("L emit %d" % tp)
-                else:
-                    step("dba %d %d" % (tp, rng.randrange(6)))
-            else:
-                side = rng.choice("LLR")
-                try:
-                    op = next(gens[side])
-                except StopIteration:
-                    break
-                step(side + " " + op)
-        a, b = pair.A.chan, pair.B.chan
-        was_open = (pair.open_for_accounting() and not a.closed and not a.eof_sent and not b.eof_sent)
-        outcome, rounds = fair_phase(rng, pair, step)
+      try:
+          nops = rng.randrange(10, 60)
+          gens = {"L": c19.gen_schedule(rng, pair.A, nthr, nops, winA, maxB, allow_close=with_close,
+                                        local_only=True, reserve_last=True),
+                  "R": c19.gen_schedule(rng, pair.B, nthr, nops, winB, maxA, allow_close=with_close,
+                                        local_only=True, reserve_last=True)}
+          tp = nthr - 1
+          for _ in range(nops):
+              r = rng.random()
+              if r < 0.3 and pair.ab:
+                  if pair.B.threads[tp].state == "hold":
+                      step("R emit %d" % tp)
+                  else:
+                      step("dab %d %d" % (tp, rng.choice([0, 1, 1, 1, 2, 3, 4, 5])))
+              elif r < 0.5 and pair.ba:
+                  if pair.A.threads[tp].state == "hold":
+                      step("L emit %d" % tp)
+                  else:
+                      step("dba %d %d" % (tp, rng.randrange(6)))
+              else:
+                  side = rng.choice("LLR")
+                  try:
+                      op = next(gens[side])
+                  except StopIteration:
+                      break
+                  step(side + " " + op)
+      except lib_chan.RigDeadlock:
+        dead = True
+      a, b = pair.A.chan, pair.B.chan
+      was_open = (pair.open_for_accounting() and not a.closed and not a.eof_sent and not b.eof_sent)
+      if dead:
+        outcome, rounds = "deadlock", 0
+      else:
+        try:
+            outcome, rounds = fair_phase(rng, pair, step)
+        except lib_chan.RigDeadlock:
+            outcome, rounds = "deadlock", 0
+      if True:
         if outcome == "stuck" and was_open and pair.open_for_accounting() and not a.closed and not a.eof_sent:
             fails.append(("sender-stuck-while-reader-reads:discarded-extended-data" if info["discards"]
                           else "sender-stuck-while-reader-reads",
